@@ -121,6 +121,20 @@ CHECKS = {
         technique="Coq proof (invariant + induction over schedules, refinement of handler state to history functions, simulation for erasure) + differential correspondence on a stepped asyncio loop",
         design="§4 C11",
     ),
+    "C12": dict(
+        text=("Machine-checked, for every schedule of external actions over an explicit small-step model of the profile "
+              "subscription machinery (profile.py and the event-handler functions it calls) on one asyncio loop in virtual time: "
+              "subscribe is all-or-nothing and never touches a foreign service (C12_all_or_nothing, full strength in the domain); "
+              "the renewal loop yields to the event loop unless a renewal pass starts with a deadline more than the tolerance "
+              "overdue (C12_loop_yields_partial; the excluded case is the known finding D19, refutation proved); after an "
+              "unsubscribe call returns nothing is routed, held or outstanding, the renewal task has ended and no request is "
+              "ever sent, unless the call started during an in-flight renewal (C12_clean_shutdown_partial; D20, refutation proved). "
+              "The clauses kept_alive (no lapse while the publisher keeps granting) and failure_reported have NO theorem yet: "
+              "they are executable clauses evaluated in Coq on the implementation's observations only. The model is compared "
+              "with the real coroutines after every action of every generated schedule (virtual-time loop, scripted publisher)."),
+        technique="Coq proof by a structural invariant over a hand-inlined asyncio transition system (three of five clauses; two of them partial outside known-finding guards) + executable clauses for the rest + differential correspondence in a virtual-time asyncio loop",
+        design="§4 C12, §11.3",
+    ),
     "C13": dict(
         text=("For every device tree and every history of M-SEARCH datagrams, clock advances and stops in the stated domain, "
               "machine-checked theorems about an executable model of the SSDP server (as repaired) show: the response table equals "
